@@ -565,7 +565,24 @@ pub async fn run_behaviour(b: &Value, dir: Option<PathBuf>) -> Vec<Value> {
         let rep = w.nodes[i].rep.as_mut().unwrap();
         let nlocal = rep.num_local_operations().await.unwrap_or(usize::MAX);
         let nundo = rep.num_undo_points().await.unwrap_or(usize::MAX);
-        w.emit(json!({"a":"Observe","r":rid,"post":post,"nlocal":nlocal,"nundo":nundo}));
+        // the per-task operation history (synchronised and unsynchronised), for every task token
+        let mut taskops = vec![];
+        if let Some(tasks) = b["tasks"].as_array() {
+            for t in tasks {
+                let tok = t.as_str().unwrap();
+                let u = w.ctx.borrow().model.task(tok);
+                let rep = w.nodes[i].rep.as_mut().unwrap();
+                if let Ok(ops) = rep.get_task_operations(u).await {
+                    let oj: Vec<Value> = ops
+                        .iter()
+                        .map(|o| w.ctx.borrow_mut().model.op_to_json(o))
+                        .collect();
+                    taskops.push(json!([tok, oj]));
+                }
+            }
+        }
+        w.emit(json!({"a":"Observe","r":rid,"post":post,"nlocal":nlocal,"nundo":nundo,
+            "taskops":taskops}));
     }
     let lines = std::mem::take(&mut w.ctx.borrow_mut().lines);
     lines
